@@ -80,6 +80,45 @@ def map1(m, f, a):
     return v
 
 
+def filter1(m, f, a):
+    """filter(f, a): the subsequence of the remaining items of `a` on which f is true (library model of the builtin).
+    Q(k) = absolute index in a's array of output k (ghost, strictly increasing); every index skipped between two
+    outputs, and everything after the last one when both ends are known, fails f.  Each output k has read the source
+    up to and including Q(k); running off the end has read the whole (finite) source."""
+    p0, arr, n, inf = remaining(m, a)
+    tag = m.counter
+    m.counter += 1
+    Q = z3.Function("FQ%d" % tag, INT, INT)
+    k, j = z3.Int("k!flt%d" % tag), z3.Int("j!flt%d" % tag)
+    LF = m.fresh("len_filter", INT)
+    INF = m.fresh("inf_filter", BOOL)
+    nabs = p0 + n
+
+    def P(idx):
+        return sym.to_bool(m.truth(m.call(f, [arr[idx]], {})))
+    live = lambda kk: z3.And(kk >= 0, z3.Or(INF, kk < LF))
+    QM = lambda kk: z3.If(kk > 0, Q(kk - 1), p0 - 1)
+    m.assume(LF >= 0)
+    m.assume(z3.Implies(z3.Not(inf), z3.And(z3.Not(INF), LF <= n)))
+    m.assume(z3.ForAll([k], z3.Implies(live(k), z3.And(Q(k) >= p0, Q(k) > QM(k), z3.Or(inf, Q(k) < nabs), P(Q(k))))))
+    m.assume(z3.ForAll([k, j], z3.Implies(z3.And(live(k), QM(k) < j, j < Q(k)), z3.Not(P(j)))))
+    m.assume(z3.Implies(z3.And(z3.Not(INF), z3.Not(inf)), z3.ForAll([j], z3.Implies(z3.And(QM(LF) < j, j < nabs), z3.Not(P(j))))))
+    v = m.new_iter(a.elem, "filter", arr=z3.Lambda([k], arr[Q(k)]), length=LF, pos=0)
+    m.heap[(v.id, "inf")] = INF
+    m.heap[(v.id, "stopped")] = z3.BoolVal(False)
+    m.heap[(v.id, "fq")] = Q
+    m.heap[(v.id, "src")] = a
+    m.heap[(v.id, "func")] = f
+    _own(m, v, a)
+
+    def sync(m, view):
+        p = m.heap[(view.id, "pos")]
+        st = m.heap[(view.id, "stopped")]
+        m.heap[(a.id, "pos")] = z3.simplify(z3.If(st, nabs, z3.If(p > 0, Q(p - 1) + 1, p0)))
+    m.heap[(v.id, "sync")] = sync
+    return v
+
+
 def map2(m, f, a, b):
     """map(f, a, b): ends with the shorter; `a` is pulled first, so when `b` is
     the one that ends, one more item of `a` has been read."""
